@@ -192,6 +192,22 @@ def _build_re(fam, impl, par, n):
         mk = lambda: jft.InvGammaPrior(par["a"], par["scale"], name="z", shape=(n,), **kw)
     else:
         raise KeyError(fam)
+    if impl == "re.array":          # array-valued parameters (one per point), the tree_map / broadcasting path
+        A = lambda v: jnp.full((n,), float(v))
+        if fam == "normal":
+            f, inv = sd.normal_prior(A(par["mean"]), A(par["std"])), sd.normal_invprior(A(par["mean"]), A(par["std"]))
+        elif fam == "lognormal":
+            f, inv = sd.lognormal_prior(A(par["mean"]), A(par["std"])), sd.lognormal_invprior(A(par["mean"]), A(par["std"]))
+        elif fam == "uniform":
+            f, inv = sd.uniform_prior(A(par["a"]), A(par["b"])), None
+        elif fam == "laplace":
+            f, inv = sd.laplace_prior(A(par["scale"])), None
+        elif fam == "invgamma":     # documented: `scale` may be array-like for `loc == 0`
+            f, inv = sd.invgamma_prior(par["a"], A(par["scale"]), step=par.get("step", 0.01)), None
+    if impl == "re.jit":
+        f0, inv0 = f, inv
+        f = jax.jit(lambda x: f0(x))
+        inv = jax.jit(lambda y: inv0(y)) if inv0 is not None else None
     if impl == "re.prior":          # the Model classes of nifty/re/prior.py
         m = mk()
         fwd = lambda x: np.asarray(m({"z": jnp.asarray(x)}), dtype=float)
@@ -218,7 +234,10 @@ def _build_cl(fam, impl, par, n):
                     out.append(float(op(fld).asnumpy()))
                 return np.array(out)
             return dict(forward=fwd, inverse=None, jac=None)
-        op = T(par["mean"], par["std"], "k", n)
+        if impl == "cl.vecpar":     # one parameter per copy (value_reshaper's array path)
+            op = T(np.full(n, par["mean"]), np.full(n, par["std"]), "k", n)
+        else:
+            op = T(par["mean"], par["std"], "k", n)
 
         def fwd(x):
             fld = ift.makeField(op.domain, {"k": np.asarray(x, dtype=float)})
